@@ -78,6 +78,7 @@ fn zeroed<T>(c: &UnsafeSyncCell<T>) -> bool { UnsafeSyncCell::check_zeroed(c.as_
 
 fn run<T: Probe>() -> usize {
     let ty = T::NAME; let mut n = 0;
+    println!("CASE {} ({} bytes, alignment {})", ty, std::mem::size_of::<T>(), std::mem::align_of::<T>());   // an abort is attributed to this item type
     take_log();
     // occupied cell: not zeroed, readable, dropped exactly once
     { let c = UnsafeSyncCell::from(T::mk(1));
